@@ -6,6 +6,26 @@ ALL = ["C%02d" % i for i in range(1, 20)]
 
 # id -> (category, technique, level text, level note, design ref)
 CLAIMED = {
+ "C01": ("exploration",
+         "model-based property testing: generated operation histories executed against the real bar on an emulated terminal and against a reference screen model (printed lines ++ frame), compared after every flush and every operation",
+         "One bar on the harness's terminal emulator of 1..12 rows x 1..40 (thorough 200) columns, random simple template (literals, {msg}, {prefix}, {pos}, {len}, 1-3 lines, zero-width SGR), histories of tick/inc/set_position/set_message/set_prefix/set_style/set_length/println/suspend/reset/finish*/abandon* with empty, zero-width, multi-line texts and widths around multiples of the terminal width. At every flush the emulated screen (scroll-back + visible rows) must equal the wrapped printed lines followed by the frame of the model state, and a probe character must land in column 0 of the row below.",
+         "Trusted: the grid emulator (self-tested; xterm deferred-wrap semantics), the simple-template reference renderer. Known finding F-C01b (empty first line of suspend output swallowed after a text-only draw) is excluded by a model-only signature and reported as KNOWN-FINDING.",
+         "DESIGN.md 3 C01"),
+ "C11": ("exploration",
+         "property-based testing under a virtual clock: every documented placeholder compared with the public getter pushed through the public formatter at the same frozen instant",
+         "One template holds every documented key plus width/alignment variants, wide_msg, bar, wide_bar and a stateful custom ProgressTracker. After every operation of a generated history (position/length/message/prefix/tick/reset/finish with gaps from 2 ms to 55 h on the virtual clock) a forced draw is compared field by field: pos/len/bytes families, elapsed/eta/duration/per_sec keys (clock frozen, so 'the same instant' is exact), msg/prefix/wide_msg, spinner index and final tick string, percent against the draw-time fraction, and what the tracker saw in write/tick/reset.",
+         "Trusted: virtual clock; public formatters (checked separately by C15). Slack: {percent} may round an exact .5 either way; trackers may be notified more often than once per update.",
+         "DESIGN.md 3 C11"),
+ "C16": ("exploration",
+         "model-based property testing over orders of tab-width/style/text operations; oracle: no TAB byte in any terminal write + frame equals the model with tabs expanded at the current width",
+         "Histories over set_tab_width/with_tab_width (0..16), set_style/with_style/style().template() re-set (7 templates: tabs in literals, '{'+TAB, custom keys writing tabs in one and in several writes), set/with message and prefix with 0-5 tabs, finish_with_message/abandon_with_message/reset/tick and a final drop with ProgressFinish::WithMessage; after every operation message()/prefix() must be the expanded text, a forced frame must equal the model line(s) and no write may contain a TAB.",
+         "Trusted: recording TermLike; model expansion. println text lines are outside the statement.",
+         "DESIGN.md 3 C16"),
+ "C17": ("exploration",
+         "differential property testing: wrapped adaptor vs unwrapped twin over scripted sources/sinks (every primitive call result generated), hand-polled async, and rayon pools with a counting tap",
+         "Sync: a scripted object implementing Read+BufRead+Seek+Write returns generated results (full/short/zero/5 error kinds) per primitive call; generated call sequences run on the wrapped and on an identical unwrapped object; return values, error kinds, data and the underlying offsets must agree, position() must follow the bytes transferred (consume counts, fill_buf not, seek sets, write_all counts what reached the sink). Iterators: every wrapping entry point x every ProgressFinish x next/next_back/len interleavings. Async: tokio AsyncRead/AsyncBufRead/AsyncWrite/AsyncSeek and futures Stream polled by hand over scripted Ready/Pending/Err. Rayon: 11 pipeline shapes incl. producer path and short-circuiting in pools of 1..8 threads; result == sequential, position == items handed on.",
+         "Trusted: the scripted objects; the tap placed directly after the adaptor. Slack: a failed read_exact/read_to_string may or may not count bytes consumed before the failure.",
+         "DESIGN.md 3 C17"),
  "C07": ("exploration",
          "model-based property testing (history interpreter vs wrapping/saturating reference model) + real-thread stress with a conservation oracle",
          "Histories of inc/dec/set_position/update/reset/finish*/abandon*/finish_using_style/set_length/inc_length/dec_length/unset_length with arguments concentrated on the u64 boundaries are executed against a bar that really renders (pos/len/percent/bar/bytes/eta/per_sec keys) and against a wrapping/saturating model; position(), length() and the fraction seen by a draw are compared after every operation, no call may panic. Concurrent part: 1-16 OS threads on clones issue generated inc/dec patterns; the final position must be the wrapping sum of all deltas.",
